@@ -283,6 +283,13 @@ func (c cmdJ) coqChan() string {
 		kind = 3
 	case "create_channel", "upsert_channel", "patch_flags":
 		kind = 4
+	case "latest_batch", "create_meta_batch", "pd_admit", "pd_ensure", "pd_complete":
+		// multi-hash-slot commands: kind 5, the item hash slots as one-byte strings
+		var hs []string
+		for _, it := range c.Items {
+			hs = append(hs, vh.List([]string{vh.N(uint64(it.hs()))}))
+		}
+		return vh.Some(vh.App("ChanOp", "5", "[]", vh.Z(0), vh.List(hs)))
 	default:
 		return "None"
 	}
